@@ -5,6 +5,8 @@ package main
 // validator updates fed to a real CometBFT ValidatorSet.
 
 import (
+	upgradetypes "github.com/KiraCore/sekai/x/upgrade/types"
+	govkeeper "github.com/KiraCore/sekai/x/gov/keeper"
 	evidencetypes "github.com/KiraCore/sekai/x/evidence/types"
 	"crypto/sha256"
 	"encoding/hex"
@@ -29,7 +31,7 @@ import (
 )
 
 func init() {
-	props["C05"] = func(r *Rec) { runStake(r, "C05") }
+	props["C05"] = func(r *Rec) { runStake(r, "C05"); c05UpgradeFlow(r, "C05") }
 	props["C15"] = func(r *Rec) { runStake(r, "C15") }
 }
 
@@ -786,6 +788,19 @@ func runStake(r *Rec, prop string) {
 		}
 	}
 
+	// ---------- colluders: several validators double-sign at the SAME height; the evidence entries sit next to each other in
+	// one block (same height, same time, same power - they differ in the offender only): every one of them is jailed
+	for _, k := range []int{2, 3} {
+		e := newStakeEp(r, prop, 5, fmt.Sprintf("colluders-%d", k))
+		e.block(nil, nil, nil, 6*time.Second)
+		for v := 0; v < k; v++ {
+			e.ev = append(e.ev, evOp{v: v})
+		}
+		e.block(nil, nil, nil, 6*time.Second)
+		e.block(nil, nil, nil, 6*time.Second)
+		r.Count(fmt.Sprintf("evidence-scenario:colluders-%d", k))
+	}
+
 	// ---------- chains that start from a genesis with paused / inactive / jailed validators, then bring them back
 	for gi, g := range []map[int]stakingtypes.ValidatorStatus{
 		{1: stakingtypes.Paused},
@@ -977,4 +992,100 @@ func runStake(r *Rec, prop string) {
 		}
 	}
 	r.Extra["rule"] = "real blocks on 3-4 validators: commit-vote absences (downtime windows), owner messages pause/unpause/activate as signed transactions (also in the wrong state), keeper-level jail / unjail-proposal / keeper Pause between BeginBlock and the transactions; every returned update list is applied to a real CometBFT ValidatorSet. Random episodes stay inside the hypotheses of C05.sync_block; the excluded shapes run as separate witness episodes. Non-trivial: accepted owner messages; distinct by (episode, height, op, outcome)."
+}
+
+// c05UpgradeFlow: the software-upgrade plan of a PASSED proposal, applied in place (instate upgrade whose handler is
+// skipped), with validators among the voters: at the first block past the upgrade time the validators that did not
+// approve are paused (they leave the consensus set), one block later the plan becomes the current one. Every block's
+// validator updates must be applicable, and the consensus set must be the set of active validators afterwards.
+func c05UpgradeFlow(r *Rec, prop string) {
+	label := "upgrade-plan-with-validator-voters"
+	r.Mark(label)
+	nVal := 4
+	w := NewWorld(WorldOpts{NAcc: 6, NVal: nVal, SudoAccs: []int{5}, CommitDelay: true})
+	gk := w.app.CustomGovKeeper
+	ctx0 := w.KeeperCtx()
+	for v := 0; v < nVal; v++ {
+		a, ok := gk.GetNetworkActorByAddress(ctx0, w.addrs[v])
+		if !ok {
+			a = govtypes.NewDefaultActor(w.addrs[v])
+		}
+		if err := gk.AddWhitelistPermission(ctx0, a, govtypes.PermVoteSoftwareUpgradeProposal); err != nil {
+			panic(err)
+		}
+	}
+	ms := govkeeper.NewMsgServerImpl(gk)
+	var pid uint64
+	upAt := w.now.Unix() + 900
+	votes := map[int]govtypes.VoteOption{0: govtypes.OptionYes, 1: govtypes.OptionNo, 3: govtypes.OptionYes, 5: govtypes.OptionYes} // validator 2 does not vote
+	step := func(what string, dt time.Duration, mid func(ctx sdk.Context)) bool {
+		br := w.Block(nil, BlockOpts{Dt: dt, Mid: mid})
+		if br.Panicked != nil {
+			r.Fail(prop+"/upgrade-flow/panic", fmt.Sprintf("%s: block %d (%s) panicked in %s: %.200v", label, w.height, what, br.Phase, br.Panicked), nil)
+			return false
+		}
+		if err := w.ApplyUpdates(br.Updates); err != nil {
+			r.Fail("C05/upgrade-flow/updates-not-applicable", fmt.Sprintf("%s: block %d (%s): the consensus engine rejects the validator updates: %v", label, w.height, what, err), nil)
+			return false
+		}
+		ctx := w.ReadCtx()
+		inV := map[string]bool{}
+		for _, v := range w.valSet.Validators {
+			inV[string(v.Address)] = true
+		}
+		for v := 0; v < nVal; v++ {
+			val, err := w.app.CustomStakingKeeper.GetValidator(ctx, sdk.ValAddress(w.addrs[v]))
+			if err != nil {
+				continue
+			}
+			if inV[string(val.GetConsAddr())] != (val.Status == stakingtypes.Active) {
+				r.Fail("C05/upgrade-flow/set-mismatch", fmt.Sprintf("%s: after block %d (%s) validator %d has status %s, consensus-set membership %v", label, w.height, what, v, val.Status, inV[string(val.GetConsAddr())]), nil)
+			}
+		}
+		return true
+	}
+	ok := step("submit and vote", 6*time.Second, func(ctx sdk.Context) {
+		content := upgradetypes.NewSoftwareUpgradeProposal("upg", []upgradetypes.Resource{{Id: "kira", Url: "u", Version: "v", Checksum: "c"}}, upAt, chainID, "verif-2", "memo", 600, "up", true, false, true)
+		m, err := govtypes.NewMsgSubmitProposal(w.addrs[5], "t", "d", content)
+		if err != nil {
+			return
+		}
+		withCache(ctx, func(cc sdk.Context) error {
+			res, e := ms.SubmitProposal(sdk.WrapSDKContext(cc), m)
+			if e != nil {
+				return e
+			}
+			pid = res.ProposalID
+			for _, who := range []int{0, 1, 3, 5} {
+				if _, e = ms.VoteProposal(sdk.WrapSDKContext(cc), govtypes.NewMsgVoteProposal(pid, w.addrs[who], votes[who], sdk.ZeroDec())); e != nil {
+					return e
+				}
+			}
+			return nil
+		})
+	})
+	if !ok || pid == 0 {
+		r.Count("upgrade-flow:setup-failed")
+		return
+	}
+	seenCurrent := false
+	for i := 0; i < 40 && ok; i++ {
+		ok = step("towards and past the upgrade time", 60*time.Second, nil)
+		if cur, _ := w.app.UpgradeKeeper.GetCurrentPlan(w.ReadCtx()); cur != nil && cur.Name == "upg" {
+			if seenCurrent {
+				break
+			}
+			seenCurrent = true
+		}
+	}
+	r.Count(fmt.Sprintf("upgrade-flow:plan-became-current=%v", seenCurrent))
+	r.Case(label, seenCurrent)
+	if ok && seenCurrent {
+		// the validators that did not approve are paused, the approving ones are active
+		for v, want := range map[int]stakingtypes.ValidatorStatus{0: stakingtypes.Active, 1: stakingtypes.Paused, 2: stakingtypes.Paused, 3: stakingtypes.Active} {
+			if val, err := w.app.CustomStakingKeeper.GetValidator(w.ReadCtx(), sdk.ValAddress(w.addrs[v])); err == nil && val.Status != want {
+				r.Count(fmt.Sprintf("upgrade-flow:validator-%d-status-%s-want-%s", v, val.Status, want))
+			}
+		}
+	}
 }
